@@ -177,6 +177,7 @@ def tnet_from( conn, addr,
                 next( source )
             data		= cpppo.dotdict()
             started		= cpppo.timer()		# When did we start the current attempt at a TNET string?
+            between		= source.sent		# 'til a symbol of the next TNET message is consumed
             for mch,sta in engine.run( source=source, data=data ):
                 if sta is not None or source.peek() is not None:
                     continue
@@ -211,6 +212,10 @@ def tnet_from( conn, addr,
                 if eof:
                     break
                 source.chain( msg )
+                # Symbols to ignore between TNET messages may arrive only now, in a later chunk
+                while ignore and source.sent == between and source.peek() is not None and source.peek() in ignore:
+                    next( source )
+                    between	= source.sent
 
             # Terminal state, or EOF, or control.done.  Only yield another TNET message if terminal. 
             duration		= cpppo.timer() - started
